@@ -55,13 +55,14 @@ def ser_all(mod, d: Path, name):
     return res
 
 
-def module_for(seed, i):
+def module_for(seed, i, alt_syms=False):
     from pi2v.checks import modules_workload as mw
     shipped = mw.shipped_modules()
     if i < len(shipped):
         return shipped[i][0], shipped[i][1]()
     rng = random.Random(seed * 7919 + i)
-    b = mw.random_module(rng)
+    # 'other' modules of a history use partly different symbol names, in another order
+    b = mw.random_module(rng, syms=('g', 'q', 'b', 'zz', 'a')) if alt_syms else mw.random_module(rng)
     return f'gen{i}', b.mod
 
 
@@ -73,6 +74,25 @@ def main():
         for i in range(first, first + count):
             name, mod = module_for(seed, i)
             out[f'{i}:{name}'] = ser_all(mod, scratch, 'm')
+    elif mode in ('hist_alone', 'hist_after'):
+        # the same modules A_i in two fresh processes: alone (A_1, A_2, ...) and interleaved with other modules
+        # (B_1, A_1, A_1, B_1, A_1, B_2, ...).  Anything that leaks from one serialisation into the next
+        # (class-level tables, caches, mutated maps) makes A_i's files differ between the two processes.
+        seed, first, count, scratch = int(sys.argv[2]), int(sys.argv[3]), int(sys.argv[4]), Path(sys.argv[5])
+        for i in range(first, first + count):
+            rng = random.Random(seed * 104729 + i)
+            ia, ib = rng.randrange(6, 400), rng.randrange(0, 400)
+            if mode == 'hist_alone':
+                _, A = module_for(seed, ia)
+                out[f'{i}:A={ia},B={ib}'] = {'A': ser_all(A, scratch, 'm')}
+            else:
+                _, B = module_for(seed, ib, alt_syms=True)
+                ser_all(B, scratch, 'm')
+                _, A = module_for(seed, ia)
+                res = {'B,A': ser_all(A, scratch, 'm'), 'A,A': ser_all(A, scratch, 'm')}
+                ser_all(B, scratch, 'm')
+                res['A,B,A'] = ser_all(A, scratch, 'm')
+                out[f'{i}:A={ia},B={ib}'] = res
     elif mode == 'histories':
         seed, first, count, scratch = int(sys.argv[2]), int(sys.argv[3]), int(sys.argv[4]), Path(sys.argv[5])
         for i in range(first, first + count):
